@@ -470,12 +470,16 @@ Section Engine.
   (* one update as the application sees it: the data object arrives (built by the caller or
      decoded from the message: a new *T with a new array), UpdateData runs, the runner reads
      the store back with DataCopy *)
-  Definition update_prog (fixed remote persist : bool) (new : list cell) (fp fd : option flt)
+  (* rb = false: the runner does NOT read the store back after this update (no DataCopy between
+     this update and the next operation) *)
+  Definition read_back (rb : bool) : prog (option nat) := if rb then data_copy else Ret None.
+
+  Definition update_prog (fixed remote persist rb : bool) (new : list cell) (fp fd : option flt)
     : prog (uret * nat * option nat) :=
     sl <- alloc_arr new ;;
     parg <- alloc_obj sl ;;
     r <- update_data fixed remote persist parg fp fd ;;
-    c <- data_copy ;;
+    c <- read_back rb ;;
     Ret (r, parg, c).
 End Engine.
 
@@ -503,9 +507,11 @@ Inductive op :=
        1 / 4 = 0 / 2 for the three types whose per-type UpdateList returns `persist` instead of the
        data (IdentificationListDataType, SessionIdentificationListDataType,
        SessionMeasurementRelationListDataType): a partial update then hands nothing back *)
-| Update (remote persist : bool) (wire : N) (u : upd)
+| Update (remote persist rb : bool) (wire : N) (u : upd)
     (* FunctionData.UpdateData reached through FeatureLocal.UpdateData / SetData, FeatureRemote.UpdateData,
-       an inbound notify (wire=1) / reply (wire=2) / write (wire=1, remote) *)
+       an inbound notify (wire=1) / reply (wire=2) / write (wire=1, remote); rb: the store is read
+       back with DataCopy (and the copy kept) right after the update; rb = false leaves the store
+       unobserved until a later Snapshot / read-back *)
 | Snapshot
     (* DataCopy, the result being kept by the application *)
 | Keep
@@ -615,8 +621,8 @@ Section Step.
   Definition step_effects (s : st) (o : op) : list eff :=
     match o with
     | Init _ _ _ _ => []
-    | Update remote persist wire u =>
-        snd (exec (update_prog grow (sch s) (qk s) (fixed s) remote persist (u_new u) (u_fp u) (u_fd u)) (cur s))
+    | Update remote persist rb wire u =>
+        snd (exec (update_prog grow (sch s) (qk s) (fixed s) remote persist rb (u_new u) (u_fp u) (u_fd u)) (cur s))
     | Snapshot => snd (exec data_copy (cur s))
     | Keep => []
     | Ext _ => []
@@ -626,16 +632,16 @@ Section Step.
     match o with
     | Init ty fm fx q =>
         ({| sch := schema_of ty; fam := fm; fixed := fx; qk := q; cur := mem0; handed := [] |}, [])
-    | Update remote persist wire u =>
+    | Update remote persist rb wire u =>
         let '(r, parg, c, m', _) :=
-          exec (update_prog grow (sch s) (qk s) (fixed s) remote persist (u_new u) (u_fp u) (u_fd u)) (cur s) in
+          exec (update_prog grow (sch s) (qk s) (fixed s) remote persist rb (u_new u) (u_fp u) (u_fd u)) (cur s) in
         let '(hs0, chg) := check_changed m' (handed s) 0 in
         let news := ret_news (returns_obj (fam s) wire) (returns_list (fam s) wire) r ++
                     (if negb (N.eqb wire 0) && succeeded r then [(2%N, HObj parg)] else []) ++
                     snap_news c in
         let '(hs1, outs) := hand_outs m' news hs0 in
         ({| sch := sch s; fam := fam s; fixed := fixed s; qk := qk s; cur := m'; handed := hs1 |},
-         [Res (code_of r)] ++ outs ++ snap_nil c ++ chg)
+         [Res (code_of r)] ++ outs ++ (if rb then snap_nil c else []) ++ chg)
     | Snapshot =>
         let '(c, m', _) := exec data_copy (cur s) in
         let '(hs0, chg) := check_changed m' (handed s) 0 in
@@ -663,6 +669,7 @@ End Step.
          1 remote persist wire <items> <filter partial> <filter delete>
          2
          3                 (Keep)
+         5 remote persist wire <items> <filter partial> <filter delete>   (as 1, without read-back)
          4 ...             (Ext: the numbers are the runner's business)
    <items>  = n nf, then n items of nf numbers each (0 = nil, v+1 = value v)
    <filter> = 0 (nil) | 1 hs he ns ne <ns numbers> <ne numbers 0/1>
@@ -717,23 +724,23 @@ Definition parse_op (l : zs) : option op :=
       else Some (Init (Z.to_nat ty) (Nz fm) (bZ fx)
                    {| q_nobreak := bZ q1; q_keepwc := bZ q2; q_deladdr := bZ q3; q_mergeaddr := bZ q4; q_mergeunk := bZ q5;
                       q_selnil := bZ q6; q_emptysel := bZ q7 |})
-  | 1 :: remote :: persist :: wire :: r =>
-      if Z.ltb wire 0 then None else
+  | [2] => Some Snapshot
+  | [3] => Some Keep
+  | 4 :: r => Some (Ext r)
+  | code :: remote :: persist :: wire :: r =>
+      if negb (Z.eqb code 1 || Z.eqb code 5) || Z.ltb wire 0 then None else
       match parse_items r with
       | Some (new, r1) =>
           match parse_filter r1 with
           | Some (fp, r2) =>
               match parse_filter r2 with
-              | Some (fd, []) => Some (Update (bZ remote) (bZ persist) (Nz wire) {| u_new := new; u_fp := fp; u_fd := fd |})
+              | Some (fd, []) => Some (Update (bZ remote) (bZ persist) (Z.eqb code 1) (Nz wire) {| u_new := new; u_fp := fp; u_fd := fd |})
               | _ => None
               end
           | None => None
           end
       | None => None
       end
-  | [2] => Some Snapshot
-  | [3] => Some Keep
-  | 4 :: r => Some (Ext r)
   | _ => None
   end.
 
